@@ -58,6 +58,7 @@ type Config struct {
 	PrefillAllKeys      bool     `json:"prefill_all_keys,omitempty"`
 	PrefillVlog         bool     `json:"prefill_vlog,omitempty"`
 	PrefillClustered    bool     `json:"prefill_clustered,omitempty"`
+	PrefillAgeS         int      `json:"prefill_age_s,omitempty"` // simulated seconds that pass between pre-fill and the explored part (table ages)
 	Prefill             int      `json:"prefill"` // percent of MemTableSize written (through the model) before scheduling starts
 }
 
